@@ -38,7 +38,7 @@ VIEW View
 
 LEVEL = "model_checking"
 
-DRIVERS_QUICK = [("pkg", 8, 6), ("sm4obj", 8, 300), ("hashctor", 8, 100), ("pool", 8, 20), ("pkcs7", 8, 10), ("firstuse", 32, 1), ("setiv", 4, 100), ("lru", 8, 300), ("config", 8, 14)]
+DRIVERS_QUICK = [("pkg", 8, 6), ("sm4obj", 8, 300), ("hashctor", 8, 100), ("pool", 8, 20), ("pkcs7", 32, 4), ("firstuse", 32, 1), ("setiv", 4, 100), ("lru", 8, 300), ("config", 8, 14)]
 DRIVERS_THOROUGH = [("pkg", 2, 40), ("pkg", 32, 10), ("sm4obj", 2, 20000), ("sm4obj", 32, 2000), ("hashctor", 32, 500), ("pool", 32, 60), ("pkcs7", 32, 30),
                     ("firstuse", 2, 1), ("firstuse", 32, 1), ("firstuse", 32, 1), ("setiv", 8, 2000), ("lru", 32, 3000), ("config", 16, 20)]
 
